@@ -40,5 +40,39 @@ func genResolver(repo string) {
 	fmt.Fprintf(&g.body, "/-- `case 1:` of the post-loop switch re-selects the kv of the one version left in `foundVs` -/\ndef mergeReturnsSurvivor : Bool := %v\n", survivor)
 	fmt.Fprintf(&g.body, "/-- an error from one parent aborts the merge loop at once -/\ndef mergeEagerError : Bool := %v\n", eagerErr)
 	fmt.Fprintf(&g.body, "/-- matches at invalidated versions are removed from `foundVs` before the switch -/\ndef mergePrunesInvalid : Bool := %v\n", prunes)
+	// GetBestKeyVersion: is an error from FindMatch returned, or dropped when kv == nil?
+	propagates := false
+	if fd := ds.funcDecl("VersionedCtx", "GetBestKeyVersion"); fd != nil {
+		src := strings.ReplaceAll(strings.ReplaceAll(ds.src(fd), " ", ""), "\t", "")
+		i := strings.Index(src, "versionMap.FindMatch(")
+		if i >= 0 {
+			rest := src[i:]
+			e := strings.Index(rest, "iferr!=nil{\nreturnnil,err")
+			k := strings.Index(rest, "ifkv==nil{")
+			propagates = e >= 0 && (k < 0 || e < k)
+		}
+	}
+	fmt.Fprintf(&g.body, "/-- `GetBestKeyVersion` returns FindMatch's error instead of dropping it when no kv is returned -/\ndef bestKeyPropagatesError : Bool := %v\n", propagates)
+	facts.Extra["bestKeyPropagatesError"] = propagates
+	// badger DeleteRange: is the scan error looked at before the nil-kv end marker?
+	bd := loadPkg(repo, "storage/badger")
+	errFirst := false
+	if fd := bd.funcDecl("BadgerDB", "DeleteRange"); fd != nil {
+		src := strings.ReplaceAll(strings.ReplaceAll(bd.src(fd), " ", ""), "\t", "")
+		e := strings.Index(src, "ifresult.error!=nil{")
+		k := strings.Index(src, "ifresult.KeyValue==nil{")
+		errFirst = e >= 0 && k >= 0 && e < k
+	}
+	fmt.Fprintf(&g.body, "/-- `DeleteRange` checks the scan's error before its end-of-range marker -/\ndef deleteRangeChecksErrorFirst : Bool := %v\n", errFirst)
+	facts.Extra["deleteRangeChecksErrorFirst"] = errFirst
+	// keyvalue.NewTKey: are keys containing the terminator byte rejected?
+	kvp := loadPkg(repo, "datatype/keyvalue")
+	rejects := false
+	if fd := kvp.funcDecl("", "NewTKey"); fd != nil {
+		src := strings.ReplaceAll(kvp.src(fd), " ", "")
+		rejects = (strings.Contains(src, "strings.IndexByte(key,0)") || strings.Contains(src, "strings.ContainsRune(key,0)") || strings.Contains(src, `strings.Contains(key,"\x00")`)) && strings.Contains(src, "returnnil,fmt.Errorf(")
+	}
+	fmt.Fprintf(&g.body, "/-- `keyvalue.NewTKey` rejects keys that contain the 0x00 terminator -/\ndef kvRejectsNul : Bool := %v\n", rejects)
+	facts.Extra["kvRejectsNul"] = rejects
 	facts.Extra["mergeReturnsSurvivor"], facts.Extra["mergeEagerError"], facts.Extra["mergePrunesInvalid"] = survivor, eagerErr, prunes
 }
